@@ -1,6 +1,7 @@
 """C11 - MEX gateway calls reach the right C++ code and never leak or double-free (Engines E, X)."""
 from .. import rules_matlab as RM
 from .. import rules_header as RH
+from .. import rules_header2 as RH2
 from .. import rules_flow as RF
 
 ID = "C11"
@@ -39,5 +40,7 @@ def run(ctx, rep):
     rep.run(RM.rule_return_ownership, ctx, rep, "H6")
     # H9: the .m dispatch that selects the routine id tests every argument the same way for every kind of callable
     rep.run(RM.rule_sibling_guards, ctx, rep, "H9")
+    # H10: what create_object hands to MATLAB (inputs, count, class name) and where handles are looked up
+    rep.run(RH2.rule_matlab_calls, ctx, rep, "H10")
     rep.run(RF.rule_memo_key_complete, ctx, rep, "H7", packages=("gtwrap/matlab_wrapper",), min_functions=50)
     rep.run(RF.rule_locals_defined, ctx, rep, "U1", packages=("gtwrap/matlab_wrapper",), min_functions=3)
